@@ -673,7 +673,7 @@ open ImathVerif.StringTable in
 /-- non-vacuity: a freshly constructed `StringArray(s, n)` represents `[s]*n` -/
 theorem string_array_create_repr (s : String) (n : Nat) :
     ∃ a, createUniform s n = some a ∧ Repr a (List.replicate n s) := by
-  refine ⟨⟨[⟨0, s⟩], List.replicate n 0⟩, by simp [createUniform, intern, findStr, insert, findIdx, indexMax], ?_⟩
+  refine ⟨⟨[⟨0, s⟩], List.replicate n 0⟩, by simp [createUniform, intern, findStr, StringTable.insert, findIdx, indexMax], ?_⟩
   refine ⟨⟨fun k hk => by simp at hk; subst hk; rfl, by simp⟩, by simp, ?_⟩
   intro i hi
   simp at hi
@@ -714,9 +714,11 @@ theorem from_buffer_repaired (t : ElemTy) (src : Src) (bytes : List Nat)
       bytes.length = src.shape0 * t.sizeofT := by
   unfold fromBuffer at h
   simp only [BufCfg.repaired] at h
-  split at h
-  · simp at h
-  · by_cases h1 : src.format = [t.format]
+  by_cases hb : badPrefix src.format = true
+  · simp [hb] at h
+  · have hbf : badPrefix src.format = false := by simpa using hb
+    simp only [hbf, Bool.false_eq_true, if_false] at h
+    by_cases h1 : src.format = [t.format]
     · by_cases h2 : src.itemsize = t.atomicSize
       · by_cases h3 : src.bytes.length = src.shape0 * t.sizeofT
         · simp [h1, h2, h3] at h
@@ -730,9 +732,11 @@ theorem from_buffer_repaired_never_oob (t : ElemTy) (src : Src) :
     fromBuffer BufCfg.repaired t src ≠ .error .oob := by
   unfold fromBuffer
   simp only [BufCfg.repaired]
-  split
-  · simp
-  · by_cases h1 : src.format = [t.format]
+  by_cases hb : badPrefix src.format = true
+  · simp [hb]
+  · have hbf : badPrefix src.format = false := by simpa using hb
+    simp only [hbf, Bool.false_eq_true, if_false]
+    by_cases h1 : src.format = [t.format]
     · by_cases h2 : src.itemsize = t.atomicSize
       · by_cases h3 : src.bytes.length = src.shape0 * t.sizeofT
         · simp [h1, h2, h3]
